@@ -85,6 +85,9 @@ class Run:
         for case in entry.cases:
             if not case.has_args():
                 continue
+            if case.options().get("tier") == "thorough" and self.tier != "thorough" and not canary:
+                self.notes.append(f"{qualname}[{case.name}]: verified in the thorough tier only (solver time); its contract is assumed by callers in this tier")
+                continue
             rep = verify.verify_case(self.world, entry, case)
             if canary:
                 rep.canary = canary
@@ -156,7 +159,9 @@ def run_property(pid, tier, seed, args, t0):
             log(f"    {secs:6.1f}s {run.results[oid].status:8s} {oid}")
 
     known = load_known()
-    findings = [f for f in known.get("findings", []) if f["property"] == pid]
+    # an obligation-level finding applies wherever the same function-level obligation is generated (the same
+    # contract is checked under every property whose dependency cone contains the function)
+    findings = [f for f in known.get("findings", []) if f["property"] == pid or f.get("kind", "obligation") == "obligation"]
     proof_obls = [oid for oid, o in run.obls.items() if o.kind not in ("cover", "canary") and oid in run.results]
     discharged = 0
     backends = {}
@@ -413,7 +418,7 @@ def write_evidence(run, P, proof_obls, discharged, backends, solver_s, covers, v
         lemmas=[oid for oid in proof_obls if oid.startswith("lemma:")],
         bounded=run.bounded,
         known_findings_printed=[k for k, _ in run.known_printed],
-        undecided=run.undecided, errors=run.errors,
+        undecided=run.undecided, errors=run.errors, deferred_to_thorough_tier=run.notes,
         samples=samples,
         evaluations=max(1, len(proof_obls) + bounded_eval),
         distinct_nontrivial=max(2, discharged),
